@@ -259,7 +259,7 @@ func (c *rvCtx) unknownTerm(fr *rvFrame, e ast.Expr) *rvTerm {
 	return &rvTerm{kind: "unknown", src: c.text(e), fields: c.mentions(fr, e, 0)}
 }
 
-func flipOp(op token.Token) token.Token {
+func rvFlipOp(op token.Token) token.Token {
 	switch op {
 	case token.LSS:
 		return token.GTR
@@ -273,7 +273,7 @@ func flipOp(op token.Token) token.Token {
 	return op
 }
 
-func negOp(op token.Token) token.Token {
+func rvNegOp(op token.Token) token.Token {
 	switch op {
 	case token.EQL:
 		return token.NEQ
@@ -291,7 +291,7 @@ func negOp(op token.Token) token.Token {
 	return op
 }
 
-func cmpName(op token.Token) string {
+func rvCmpName(op token.Token) string {
 	switch op {
 	case token.EQL:
 		return "Ceq"
@@ -322,7 +322,7 @@ func (c *rvCtx) optAtom(src string, val bool) *rvCond {
 func (c *rvCtx) compare(fr *rvFrame, e *ast.BinaryExpr) *rvCond {
 	l, r, op := c.term(fr, e.X), c.term(fr, e.Y), e.Op
 	if isLit(l) && !isLit(r) {
-		l, r, op = r, l, flipOp(op)
+		l, r, op = r, l, rvFlipOp(op)
 	}
 	unknown := func() *rvCond {
 		return rvUnknown(c.text(e), append(append(c.mentions(fr, e, 0), l.fields...), r.fields...))
@@ -362,14 +362,14 @@ func (c *rvCtx) compare(fr *rvFrame, e *ast.BinaryExpr) *rvCond {
 	case (l.kind == "int" || l.kind == "intlit") && (r.kind == "int" || r.kind == "intlit"):
 		a, _ := l.iterm()
 		b, _ := r.iterm()
-		return rvAtom(fmt.Sprintf("CIntCmp %s (%s) (%s)", cmpName(op), a, b), fmt.Sprintf("CIntCmp %s (%s) (%s)", cmpName(negOp(op)), a, b))
+		return rvAtom(fmt.Sprintf("CIntCmp %s (%s) (%s)", rvCmpName(op), a, b), fmt.Sprintf("CIntCmp %s (%s) (%s)", rvCmpName(rvNegOp(op)), a, b))
 	case l.kind == "len" && r.kind == "intlit":
-		return rvAtom(fmt.Sprintf("CByteLen %s (%s) %s", cmpName(op), l.coq, coqZ(r.n)), fmt.Sprintf("CByteLen %s (%s) %s", cmpName(negOp(op)), l.coq, coqZ(r.n)))
+		return rvAtom(fmt.Sprintf("CByteLen %s (%s) %s", rvCmpName(op), l.coq, coqZ(r.n)), fmt.Sprintf("CByteLen %s (%s) %s", rvCmpName(rvNegOp(op)), l.coq, coqZ(r.n)))
 	case l.kind == "runelen" && r.kind == "intlit":
-		return rvAtom(fmt.Sprintf("CRuneLen %s (%s) %s", cmpName(op), l.coq, coqZ(r.n)), fmt.Sprintf("CRuneLen %s (%s) %s", cmpName(negOp(op)), l.coq, coqZ(r.n)))
+		return rvAtom(fmt.Sprintf("CRuneLen %s (%s) %s", rvCmpName(op), l.coq, coqZ(r.n)), fmt.Sprintf("CRuneLen %s (%s) %s", rvCmpName(rvNegOp(op)), l.coq, coqZ(r.n)))
 	case l.kind == "slicelen" && r.kind == "intlit":
 		f := coqString("#" + l.field)
-		return rvAtom(fmt.Sprintf("CIntCmp %s (IField %s) (IConst %s)", cmpName(op), f, coqZ(r.n)), fmt.Sprintf("CIntCmp %s (IField %s) (IConst %s)", cmpName(negOp(op)), f, coqZ(r.n)))
+		return rvAtom(fmt.Sprintf("CIntCmp %s (IField %s) (IConst %s)", rvCmpName(op), f, coqZ(r.n)), fmt.Sprintf("CIntCmp %s (IField %s) (IConst %s)", rvCmpName(rvNegOp(op)), f, coqZ(r.n)))
 	}
 	return unknown()
 }
